@@ -83,6 +83,48 @@ def run(rep, tier, seed):
                 continue
             reqs.append((4, [eT, 0, 0, 0, enc_str(text)]))
             metas.append((T, Lt, text, tree))
+    # names with an operator word inside, next to names that start on the word before it; texts that follow
+    # such a name through its operator word and then leave it: the operator word is an operator there
+    fam = 800 if tier == 'thorough' else 150
+    wp = ['gnu', 'gpl', 'lgpl', 'the', 'bsd', 'zlib', 'x11', 'cc', 'by']
+    for _ in range(fam):
+        a, b, c, d, e = rng.sample(wp, 5)
+        op = rng.choice(['or', 'and', 'with'])
+        long_name = ' '.join([a, b, op, c] if rng.random() < 0.7 else [d, a, b, op, c])
+        T = [(long_name, [], False), ('%s %s' % (b, rng.choice(['2', '3', d])), [], False), ('mit', [], False)]
+        if not gen.table_ok(T):
+            continue
+        prefix0 = long_name.split(' ' + op + ' ')[0]
+        other0 = rng.choice(['mit', e, 'zz'])
+        vp = gen.vary_name(rng, prefix0)                 # unknown words keep their spelling in the key
+        vo = gen.vary_case(rng, other0)
+        prefix = ' '.join(gen.words_of(vp))
+        okey = 'mit' if other0 == 'mit' else vo
+        vop = gen.vary_case(rng, op)
+        sep = lambda: gen.gen_ws(rng, 1, 2)
+        shapes = []
+        if op in ('or', 'and'):
+            tag = 1 if op == 'and' else 2
+            P = [0, [0, [enc_str(prefix), 0]]]
+            Q = [0, [0, [enc_str(okey), 0]]]
+            shapes.append((vp + sep() + vop + sep() + vo, [tag, [P, Q]]))
+            shapes.append(('mit ' + ('and' if op == 'or' else 'or') + ' (' + vp + sep() + vop + sep() + vo + ')',
+                           [2 if op == 'and' else 1, [[0, [0, [enc_str('mit'), 0]]], [tag, [P, Q]]]]))
+        else:
+            shapes.append((vp + sep() + vop + sep() + vo + ' or mit',
+                           [2, [[0, [1, [enc_str(prefix), 0], [enc_str(okey), 0]]], [0, [0, [enc_str('mit'), 0]]]]]))
+        try:
+            Lt = make_licensing(T)
+        except ValueError:
+            continue
+        for text, tree in shapes:
+            if ''.join(ch.lower() for ch in text) != text.lower():
+                continue
+            if gen.occurrences(T, gen.lw(text)) and any(i != 2 for _, _, i in gen.occurrences(T, gen.lw(text))):
+                rep.count('family_skipped_cross')
+                continue
+            reqs.append((4, [enc_table(T), 0, 0, 0, enc_str(text)]))
+            metas.append((T, Lt, text, tree))
     res = run_model(reqs)
     for (T, Lt, text, tree), r in zip(metas, res):
         got = parsing.parse_outcome(Lt, text)
